@@ -1,6 +1,7 @@
 import TsRsVerif.Model.Export
 import TsRsVerif.Lemmas.ExportLemmas
 import TsRsVerif.Lemmas.RetryHistory
+import TsRsVerif.Lemmas.WalkFail
 /-!
 # C17 — export failures are returned as errors and do not poison later exports
 
@@ -96,6 +97,29 @@ example :
     let w : World := { fs := fs, reg := [] }
     let t : TyInfo := { ident := "A".toList, outputPath := some "A.ts".toList, text := .ok "x\n\nexport type A = 1;\n".toList, deps := [] }
     (exportInto w t "./bindings".toList).2 = .err .io := by decide
+
+/-- **`export_all` returns the first failure and exports nothing after it**: a walk that returns an error has exactly the effect
+of `export_into` for a duplicate-free list of types, each returning `Ok`, followed by ONE `export_into` that returns that very
+error — the error of a dependency is never replaced by the success of a later sibling, nothing is written after it — and that last
+step left the registry, the lock and every regular file as they were (`Lemmas/WalkFail.lean`; for any dependency graph, any order of
+the dependency lists, any obstacle). The converse for `Ok` is `C11_export_all_is_a_sequence`: every step returned `Ok`. -/
+theorem C17_walk_returns_first_failure (u : Universe) (fuel : Nat) (w w' : World) (dir : Str) (i : Nat) (seen' : List Nat) (e : ExportErr)
+    (h : exportRec u fuel w [] dir i = some (w', seen', .err e)) :
+    ∃ (order : List Nat) (j : Nat) (t : TyInfo) (w1 : World), order.Nodup ∧ j ∉ order ∧
+      runInto u dir w order = (w1, true) ∧ u[j]? = some t ∧ exportInto w1 t dir = (w', .err e) ∧
+      w'.reg = w1.reg ∧ w'.poisoned = w1.poisoned ∧ FilesEq w1.fs w'.fs := by
+  obtain ⟨order, j, t, w1, hn, _, hj, _, hr, hu, he⟩ := exportRec_fail u dir fuel w [] i w' seen' (.err e) h (by simp)
+  exact ⟨order, j, t, w1, hn, hj, hr, hu, he, C17_failed_export_into_untouched w1 w' t dir e he⟩
+
+/-! non-vacuity: the FIRST of two dependencies cannot be written (its target is a directory): the walk returns the I/O error and the
+second dependency's file is not written -/
+def exFU : Universe := [
+  { ident := "Root".toList, outputPath := some "Root.ts".toList, text := .ok "// r\n\nexport type Root = 1;\n".toList, deps := [1, 2] },
+  { ident := "Early".toList, outputPath := some "Early.ts".toList, text := .ok "// e\n\nexport type Early = 1;\n".toList, deps := [] },
+  { ident := "Late".toList, outputPath := some "Late.ts".toList, text := .ok "// l\n\nexport type Late = 1;\n".toList, deps := [] }]
+def exFW : World := { fs := { nodes := [(["w".toList], .dir), (["w".toList, "out".toList], .dir), (["w".toList, "out".toList, "Early.ts".toList], .dir)], cwd := ["w".toList] }, reg := [] }
+#guard ((exportRec exFU 8 exFW [] "./out".toList 0).map fun r => (r.2.2 == Outcome.err .io, r.1.fs.lookup ["w".toList, "out".toList, "Late.ts".toList] == none,
+  (r.1.fs.lookup ["w".toList, "out".toList, "Root.ts".toList]).isSome)) == some (true, true, true)
 
 /-- **a failed export is not recorded as done; after the obstacle is removed the retry — and everything after it — gives the
 directory contents of the history in which the failure never happened.** `w₁`: the world after any history `done` over any number of
